@@ -5,7 +5,7 @@
 EXTENDS WavHeader, Json, IOUtils, TLC
 T == ndJsonDeserialize(IOEnv.TRACE)
 VARIABLE ti
-CONSTANT Mode      \* "C13": round-trip obligations only; "C14": return-value contract and fault freedom too
+CONSTANT Mode      \* "C13": round-trip obligations only; "C14": return-value contract and fault freedom only
 
 Hdr(j) == [chunk_id |-> j.chunk_id, chunk_size |-> j.chunk_size, format |-> j.format, fmt_chunk_id |-> j.fmt_chunk_id,
            fmt_chunk_size |-> j.fmt_chunk_size, audio_format |-> j.audio_format, num_channels |-> j.num_channels,
@@ -39,7 +39,7 @@ DecodeOK(ev) ==
        /\ ev.ts = 1                                            \* tostring terminated without a signal
        /\ ev.fmt = GetFormat(Hdr(ev.h))                        \* get_format total
        /\ ev.val \in {0, EINVAL} /\ (ev.val = 0 => Validate(Hdr(ev.h)) = 0)
-  /\ (ev.ret >= MinSize /\ ev.ret <= ev.sz /\ ev.ret = pr.consumed) =>   \* accepted: structure, and re-encoding reproduces the bytes
+  /\ (Mode = "C13" /\ ev.ret >= MinSize /\ ev.ret <= ev.sz /\ ev.ret = pr.consumed) =>   \* accepted: structure, and re-encoding reproduces the bytes
         /\ Hdr(ev.h) = pr.h
         /\ ev.relen = ev.ret
         /\ ev.re = Normalise(ev.b, ev.sz)
